@@ -217,18 +217,29 @@ def run_once(world, ps, policy, hk_guarded):
         # ---- epilogue (sequential, unmanaged): every remaining connection ends, both periods pass, and the housekeeper
         # (if its thread is still alive) makes one more pass: the server must have forgotten every stream
         leftover = None
+        stage = None
         if status == "ok":
-            for c in sorted(world.conns):
-                if c not in disconnected:
-                    try:
-                        daemon._clientDisconnect(world.conn(c))
-                    except Exception:
-                        pass
-            world.clock.now += max(ps["lifetime"], ps["linger"], 0) + 1
-            if not hk_dead[0]:
-                daemon._housekeeping()
-            leftover = sorted(uuids.index(sid) for sid in dict.keys(table))
-        return sc, outcome, {"status": status, "masked": masked, "leftover": leftover, "hk_dead": hk_dead[0]}
+            remaining = lambda: sorted(uuids.index(sid) for sid in dict.keys(table))   # noqa: E731
+            if ps["lifetime"] > 0:
+                # connections stay open, the lifetime passes, the housekeeper (if alive) makes a pass
+                world.clock.now += ps["lifetime"] + 1
+                if not hk_dead[0]:
+                    daemon._housekeeping()
+                leftover = remaining()
+                stage = "their lifetime has passed"
+            if not leftover:
+                for c in sorted(world.conns):
+                    if c not in disconnected:
+                        try:
+                            daemon._clientDisconnect(world.conn(c))
+                        except Exception:
+                            pass
+                world.clock.now += max(ps["linger"], 0) + 1
+                if not hk_dead[0]:
+                    daemon._housekeeping()
+                leftover = remaining()
+                stage = "every connection has ended and the linger period has passed"
+        return sc, outcome, {"status": status, "masked": masked, "leftover": leftover, "hk_dead": hk_dead[0], "stage": stage}
     finally:
         daemon.housekeeper_lock = old_lock
         daemon.streaming_responses = {}
@@ -248,8 +259,8 @@ def judge(ps, sc, outcome, info):
                 "(the stream was removed concurrently and `del` fails in the handler)" % (call[1], what))
     if info["leftover"]:
         why = "the housekeeper thread died of a KeyError" if info["hk_dead"] else "a disconnect was aborted by a KeyError"
-        return ("race:not-forgotten", "streams %s are never forgotten although every connection has ended and lifetime / linger "
-                "have passed (%s)" % (info["leftover"], why))
+        return ("race:not-forgotten", "streams %s stay in the server's table for ever although %s (%s)"
+                % (info["leftover"], info["stage"], why))
     return None
 
 
@@ -306,11 +317,13 @@ def interleavings(ctx, corr=True, judge_corpus=True):
             bad = judge(ps, sc, outcome, info)
             if bad:
                 ctx.fail(bad[0], "corpus witness %s reproduces: %s" % (f, bad[1]), c)
-        sets = [(ps, 99, ctx.n(2500, 20000)) for ps in PROGRAM_SETS]
-        for _ in range(ctx.n(10, 150)):
-            sets.append((gen_program_set(rng), 2 if ctx.tier == "quick" else 3, ctx.n(120, 1500)))
+        quick = ctx.tier != "thorough"
+        mult = 3 if (ctx.search_mode and quick) else 1
+        sets = [(ps, 99, (500 if quick else 20000) * mult) for ps in PROGRAM_SETS]
+        for _ in range((10 if quick else 100) * mult):
+            sets.append((gen_program_set(rng), 2 if quick else 3, 120 if quick else 800))
         for ps, bound, max_runs in sets:
-            explore_set(ctx, world, ps, modes if corr else None, hk_guarded, bound, max_runs, rng, ctx.n(10, 100), lines, reals, meta)
+            explore_set(ctx, world, ps, modes if corr else None, hk_guarded, bound, max_runs, rng, 10 if ctx.tier == "quick" else 100, lines, reals, meta)
     finally:
         restore()
     if corr and lines:
